@@ -8,56 +8,65 @@ import Splipy.Lemmas.C16Integrate
 import Splipy.Lemmas.C16IntegrateReal
 import Splipy.Lemmas.C16CenterModel
 import Splipy.Lemmas.C16CenterReal
+import Splipy.Lemmas.C16Bridge
+import Splipy.Lemmas.C16Composite
+import Splipy.Lemmas.C16Invariance
 import Mathlib.Algebra.Order.Archimedean.Real.Basic
 
 /-!
 # Property C16 — lengths, areas, volumes, centres and curvatures are representation independent
 
-What is PROVED here (kernel-checked, any ordered field unless stated):
+Three kinds of theorems (kernel-checked; ordered field `K` unless `ℝ` is written):
 
-* `C16_basis_integral_identity`, `C16_basis_integral_span`, `C16_basis_integral_continuity`,
-  `C16_basis_integral_real`, `C16_basis_integrals_sum` — `BSplineBasis.integrate`: the
-  tail-sum function `intF` it evaluates is, span by span, an antiderivative of the polynomial
-  piece of `B_{i,q}`; it is continuous across interior knots; over `ℝ`, for every sub-interval
-  `[a,b]` (any number of spans), `intF(b) − intF(a)` IS Mathlib's interval integral of `B_{i,q}`;
-  all integrals add up to `t1 − t0`.
-* `C16_quadrature_exact_polynomial` (+ `_basis`, `_tensor2`, `_tensor3`) — a rule that is exact for
-  monomials up to degree `D` on `[-1,1]` (hypothesis `RuleExact`; Gauss–Legendre with `m` nodes has
-  `D = 2m−1`), mapped to the knot spans as the code maps it, integrates every piecewise polynomial
-  of degree `≤ D` per span (and per direction) exactly.
-* `C16_exact_invariances_*` — node by node: rotations, translations, uniform scalings, reversal,
-  swap.
-* `C16_frenet`, `C16_curvature_torsion_rigid`, `C16_curvature_torsion_scaling`,
-  `C16_torsion_scalar_numerator_zero`.
-* `C16_center_equivariance`, `C16_center_equivariance_rational`, `C16_center_integral_mean`;
-  model level: `C16_center_curve_spec`, `C16_center_curve_is_integral_mean(_periodic)`,
-  `C16_center_surface_is_integral_mean`, `C16_center_curve_rational`, `C16_center_insert_knot_invariant`.
-* `C16_integrate_spec_open`, `C16_integrate_spec_periodic`, `C16_integrate_is_integral(_periodic)` — the
-  EXECUTABLE model `Basis.integrate` (from `Basis.Valid` alone, C01 applied to the proved-valid
-  integration basis) returns `intF(t1) − intF(t0)` per function (periodic: summed over the wrapped
-  images), which over `ℝ` is `∫_{t0}^{t1} B_c` for every sub-interval of the domain.
+**(A) About the EXECUTABLE model functions of `Model/Measure.lean`** (model ↔ specification):
+* `Basis.integrate`: `C16_integrate_spec_open/_periodic` (returns `intF(t1) − intF(t0)` per function,
+  periodic: summed over the wrapped images) and `C16_integrate_is_integral(_periodic)` (`ℝ`:
+  `= ∫_{t0}^{t1} B_c`), from `Basis.Valid` and tolerance-exact end points ALONE — no condition on
+  knot multiplicities.
+* `Obj.center`: `C16_center_curve_spec`, `C16_center_curve_is_integral_mean(_periodic)`,
+  `C16_center_surface_is_integral_mean` (non-rational; surfaces: non-periodic directions),
+  `C16_center_curve_rational` (projective formula), `C16_center_insert_knot_invariant`.
+* `Obj.lengthData`, `Obj.curvatureData`, `Obj.torsionData`, `Obj.areaData`, `Obj.volume` of
+  NON-RATIONAL objects: `C16_lengthData_spec`, `C16_curvatureData_spec(_planar)`,
+  `C16_torsionData_spec`, `C16_volume_spec` (each model result is the speed / cross products /
+  Jacobian of the specification derivatives of the MAP at the nodes, via C03), the representation
+  independence `C16_curvature_torsion_insert_knot_invariant`, `C16_curvature_insert_knot_invariant_planar`
+  (via C04), `C16_curvature_torsion_rotation_partial`, `C16_curvature_torsion_scaling_partial`
+  (rotated / scaled control NET as hypothesis), and exactness `C16_volume_exact_partial`,
+  `C16_area_planar_exact_partial`, `C16_gauss_rule_exact_composite` for rules satisfying the moment
+  equations (`GaussRule`, any number of nodes).
 
-What is NOT proved (and cannot be an identity): the clauses of the property that are statements
-about the quadrature ERROR —
-  (1) invariance of length / area / volume under knot insertion, order elevation and
-      splitting-and-summing when the integrand is NOT a polynomial of degree `≤ 2p+1` per span
-      (every curve length of order `> 2`, every 3-D surface area, everything rational, trivariate
-      volumes of order `> 5`): the two representations are integrated by different composite rules
-      and agree only up to their quadrature errors;
-  (2) convergence to the analytic values for circles, spheres, cylinders and tori under refinement.
-These are covered by the model-independent oracle of `harness/props/C16.py` only (element-wise error
-budgets against a high-order reference, errors must shrink under `refine`, final error `< 1e-6`);
-C16 is labelled PARTIAL for exactly these clauses.
+**(B) About the specification** (`intF`, `Bpoly`, `B`): `C16_basis_integral_identity`, `_span`,
+`_continuity`, `_real`, `C16_basis_integrals_sum`, `C16_quadrature_exact_basis`,
+`C16_center_integral_mean`.
 
-Model ↔ specification links that ARE proved (from `Basis.Valid` alone, via C01 on the proved-valid
-integration basis and C04): `Basis.integrate` (`C16_integrate_spec_open/_periodic`,
-`C16_integrate_is_integral(_periodic)`), `Obj.center` of non-rational curves (non-periodic and periodic), of
-non-rational surfaces on non-periodic bases and (algebraic form) of rational curves
-(`C16_center_curve_spec`, `C16_center_curve_is_integral_mean(_periodic)`,
-`C16_center_surface_is_integral_mean`, `C16_center_curve_rational`, `C16_center_insert_knot_invariant`).
-Links validated by the correspondence run only: `Obj.center` for volumes, rational surfaces and
-surfaces with periodic directions, `Obj.lengthData/areaData/volume`, `curvatureData/torsionData/frenetData` (their
-node-wise algebra is what the `C16_exact_invariances_*` / `C16_frenet` theorems are about).
+**(C) Free-standing algebra used by (A)** (node-wise identities between vectors, abstract rules):
+`C16_quadrature_exact_polynomial/_tensor2/_tensor3`, `C16_volume_rule_exact_order2`,
+`C16_exact_invariances_*`, `C16_frenet`, `C16_curvature_torsion_rigid/_scaling`,
+`C16_torsion_scalar_numerator_zero`, `C16_center_equivariance(_rational)`.  They mention no model
+function; their link to the code is (A) where stated, otherwise the correspondence run.
+
+**Gauss–Legendre.**  The rule enters as the hypothesis `RuleExact` / `GaussRule` = the moment
+equations `Σ w_i x_i^k = ∫_{-1}^{1} t^k` for `k ≤ D`; exactness for every polynomial of degree `≤ D` is
+PROVED from them for every number of nodes.  That real nodes with `D = 2m−1` exist is proved for
+`m ≤ 3` only and otherwise assumed; the executable model is run with the float nodes numpy returns
+(as exact rationals), which satisfy the moment equations only to rounding — `harness/props/C16.py`
+checks that to `1e-14` for `m ≤ 8`; the exactness THEOREMS are therefore statements about the ideal
+rule over `ℝ`, not about the rational run.
+
+**NOT proved** (and no identity): the quadrature-ERROR clauses of the property —
+  (1) invariance of length / area / volume under knot insertion, order elevation and splitting when
+      the integrand is not a polynomial of degree `≤ 2p+1` per span (curve lengths of order `> 2`,
+      3-D surface areas, everything rational, volumes of order `> 5`);
+  (2) convergence to the analytic values for circles, spheres, cylinders and tori.
+These are covered by the model-independent oracle only; C16 is PARTIAL for exactly these clauses.
+Also not proved: `hF` of `C16_volume_exact_partial` / `C16_area_planar_exact_partial` (the polynomial
+representation of the one-signed Jacobian from `Bpoly`), hence no model-level statement that
+`Obj.volume`/planar area are unchanged by insertion/elevation/swap; `Obj.center` for volumes and
+rational / periodic surfaces; `curvatureData`/`torsionData`/`lengthData` of RATIONAL curves (the
+closed-form derivative path) and `frenetData`; order elevation and reversal of curvature/torsion at
+model level; the link from `Obj.rotate/scale` to the net hypotheses of the `_partial` theorems
+(property C09).
 -/
 
 open Splipy Splipy.Affine Polynomial
@@ -116,9 +125,10 @@ theorem C16_basis_integrals_sum (s0 s1 : Side) (τ : ℕ → K) (hτ : Monotone 
 end integrals
 
 /-- **`integrate` is the integral** (`K = ℝ`, Mathlib's interval integral), any sub-interval.
-`τ` = extended knot vector, `a` in the span `μ0` (`τ μ0 ≤ a < τ (μ0+1)`), `a < b ≤ τ (μ0+k+1)`, and
-every point strictly between `a` and `b` occurs at most `q+1` times in `τ` (interior knots of a
-basis of order `p = q+1` have multiplicity `≤ p`).  Then `B_{i,q}` is integrable on `[a,b]` and
+`τ` = extended knot vector, `a` in the span `μ0 ≥ q+1` of the domain (`τ μ0 ≤ a < τ (μ0+1)`),
+`a < b ≤ τ (μ0+k+1)`, `μ0 + k < N`; NO condition on knot multiplicities
+(`intF_left_eq_right_of_domain`: where a B-spline of the tail sum jumps, the factor
+`τ (i+q+1) − τ i` vanishes or the jumps cancel).  Then `B_{i,q}` is integrable on `[a,b]` and
 
   `∫_a^b B_{i,q}(x) dx = intF(b⁻) − intF(a⁺)`,
 
@@ -126,12 +136,11 @@ the number `integrate(a,b)` returns for the extended index `i` (lower limit eval
 right, upper limit from the left — at an interior knot both sides agree,
 `C16_basis_integral_continuity`; at the domain end `evaluate` takes the left limit). -/
 theorem C16_basis_integral_real (s : Side) (τ : ℕ → ℝ) (hτ : Monotone τ) (q N i μ0 : ℕ) (a : ℝ)
-    (ha : τ μ0 ≤ a) (ha' : a < τ (μ0+1)) (k : ℕ) (hN : μ0 + k < N) (b : ℝ) (hab : a < b)
-    (hb : b ≤ τ (μ0+k+1))
-    (hm : ∀ ξ, a < ξ → ξ < b → ∀ j, τ j = ξ → τ (j+(q+1)) ≠ ξ) :
+    (hq : q + 1 ≤ μ0) (ha : τ μ0 ≤ a) (ha' : a < τ (μ0+1)) (k : ℕ) (hN : μ0 + k < N) (b : ℝ)
+    (hab : a < b) (hb : b ≤ τ (μ0+k+1)) :
     IntervalIntegrable (fun x => B s τ q i x) MeasureTheory.volume a b ∧
       ∫ x in a..b, B s τ q i x = intF .left τ q N i b - intF .right τ q N i a :=
-  integral_B_eq_intF_multi s τ hτ q N i μ0 a ha ha' k hN b hab hb hm
+  integral_B_eq_intF_multi s τ hτ q N i μ0 a hq ha ha' k hN b hab hb
 
 section integrate_model
 
@@ -166,12 +175,12 @@ theorem C16_integrate_spec_periodic {b : Basis K} (hv : b.Valid) (hper : 0 ≤ b
 end integrate_model
 
 /-- **`integrate(t0,t1)[c] = ∫_{t0}^{t1} B_c`** (`K = ℝ`, Mathlib's interval integral; non-periodic
-basis): for every valid basis whose interior knots have multiplicity `≤ order`
-(`Basis.InteriorMultLE`) and every sub-interval `start ≤ t0 < t1 ≤ stop` with exact end points, the
+basis): for EVERY valid basis (no condition on knot multiplicities) and every sub-interval
+`start ≤ t0 < t1 ≤ stop` with end points that are exact for the tolerance, the
 executable model of `BSplineBasis.integrate` returns exactly the integrals of the basis functions
 (`B s b.kn (p−1) c`, either side `s`). -/
 theorem C16_integrate_is_integral {b : Basis ℝ} (hv : b.Valid) (hper : b.periodic = -1)
-    (hm : b.InteriorMultLE) (s : Side) {tol t0 t1 : ℝ} (htol : 0 < tol)
+    (s : Side) {tol t0 t1 : ℝ} (htol : 0 < tol)
     (hex0 : b.ExactAt tol t0) (hex1 : b.ExactAt tol t1)
     (h0 : b.start ≤ t0) (hlt : t0 < t1) (h1 : t1 ≤ b.stop) :
     ∃ r, b.integrate tol t0 t1 = .ok r ∧ r.size = b.numFunctions ∧
@@ -179,12 +188,12 @@ theorem C16_integrate_is_integral {b : Basis ℝ} (hv : b.Valid) (hper : b.perio
   obtain ⟨r, hr, hs, hg⟩ := Basis.integrate_nonperiodic hv hper htol hex0 hex1 h0
     (le_trans hlt.le h1) (le_trans h0 hlt.le) h1
   exact ⟨r, hr, hs, fun c hc => by
-    rw [hg c hc, Basis.intEntry_eq_integral hv hm s c h0 hlt h1]⟩
+    rw [hg c hc, Basis.intEntry_eq_integral hv s c h0 hlt h1]⟩
 
 /-- **… periodic basis**: entry `c` is the sum of the integrals of all images `i ≡ c`, i.e. the
 integral of the periodic basis function number `c` (C01: its value is the sum of the images). -/
 theorem C16_integrate_is_integral_periodic {b : Basis ℝ} (hv : b.Valid) (hper : 0 ≤ b.periodic)
-    (hm : b.InteriorMultLE) (s : Side) {tol t0 t1 : ℝ} (htol : 0 < tol)
+    (s : Side) {tol t0 t1 : ℝ} (htol : 0 < tol)
     (hex0 : b.ExactAt tol t0) (hex1 : b.ExactAt tol t1)
     (h0 : b.start ≤ t0) (hlt : t0 < t1) (h1 : t1 ≤ b.stop) :
     ∃ r, b.integrate tol t0 t1 = .ok r ∧ r.size = b.numFunctions ∧
@@ -195,7 +204,7 @@ theorem C16_integrate_is_integral_periodic {b : Basis ℝ} (hv : b.Valid) (hper 
     (le_trans hlt.le h1) (le_trans h0 hlt.le) h1
   refine ⟨r, hr, hs, fun c hc => ?_⟩
   rw [hg c hc]
-  exact Finset.sum_congr rfl (fun i _ => Basis.intEntry_eq_integral hv hm s i h0 hlt h1)
+  exact Finset.sum_congr rfl (fun i _ => Basis.intEntry_eq_integral hv s i h0 hlt h1)
 
 /-- **The executable `Obj.center` of a non-rational curve** (valid non-periodic basis, control net
 `n × nc`, `start`/`end` exact for the tolerance): component `k` is
@@ -218,21 +227,21 @@ curve evaluates (C02).  No quadrature is involved. -/
 theorem C16_center_curve_is_integral_mean (o : Obj ℝ) (tol : ℝ) (n nc : ℕ)
     (hsh : o.cps.shape = [n, nc]) (hb : o.bases.size = 1) (hrat : o.rational = false)
     (hv : (o.basis 0).Valid) (hper : (o.basis 0).periodic = -1)
-    (hn : n = (o.basis 0).numFunctions) (hm : (o.basis 0).InteriorMultLE) (htol : 0 < tol)
+    (hn : n = (o.basis 0).numFunctions) (htol : 0 < tol)
     (hexs : (o.basis 0).ExactAt tol (o.basis 0).start)
     (hexe : (o.basis 0).ExactAt tol (o.basis 0).stop) (s : Side) :
     ∃ r, o.center tol = .ok r ∧ r.size = nc ∧ ∀ k, k < nc →
       r.getD k 0 = (∫ x in (o.basis 0).start..(o.basis 0).stop,
           splineVal s (o.basis 0).kn ((o.basis 0).order - 1) n (fun j => o.cps.get (j * nc + k)) x)
         / ((o.basis 0).stop - (o.basis 0).start) :=
-  Obj.center_curve_integral_mean o tol n nc hsh hb hrat hv hper hn hm htol hexs hexe s
+  Obj.center_curve_integral_mean o tol n nc hsh hb hrat hv hper hn htol hexs hexe s
 
 /-- **… periodic curve**: the integral mean of the periodic spline `Σ_{i<nAll} cps[i mod n]·B_i`
 (the periodic basis function number `c` is the sum of its wrapped images, C01). -/
 theorem C16_center_curve_is_integral_mean_periodic (o : Obj ℝ) (tol : ℝ) (n nc : ℕ)
     (hsh : o.cps.shape = [n, nc]) (hb : o.bases.size = 1) (hrat : o.rational = false)
     (hv : (o.basis 0).Valid) (hper : 0 ≤ (o.basis 0).periodic)
-    (hn : n = (o.basis 0).numFunctions) (hm : (o.basis 0).InteriorMultLE) (htol : 0 < tol)
+    (hn : n = (o.basis 0).numFunctions) (htol : 0 < tol)
     (hexs : (o.basis 0).ExactAt tol (o.basis 0).start)
     (hexe : (o.basis 0).ExactAt tol (o.basis 0).stop) (s : Side) :
     ∃ r, o.center tol = .ok r ∧ r.size = nc ∧ ∀ k, k < nc →
@@ -240,7 +249,7 @@ theorem C16_center_curve_is_integral_mean_periodic (o : Obj ℝ) (tol : ℝ) (n 
           splineVal s (o.basis 0).kn ((o.basis 0).order - 1) (o.basis 0).nAll
             (fun i => o.cps.get ((i % n) * nc + k)) x)
         / ((o.basis 0).stop - (o.basis 0).start) :=
-  Obj.center_curve_integral_mean_periodic o tol n nc hsh hb hrat hv hper hn hm htol hexs hexe s
+  Obj.center_curve_integral_mean_periodic o tol n nc hsh hb hrat hv hper hn htol hexs hexe s
 
 /-- **`center()` of a non-rational SURFACE is the exact integral mean** (`K = ℝ`, both directions
 valid and non-periodic): component `k` is
@@ -250,7 +259,7 @@ theorem C16_center_surface_is_integral_mean (o : Obj ℝ) (tol : ℝ) (n1 n2 nc 
     (hv0 : (o.basis 0).Valid) (hv1 : (o.basis 1).Valid)
     (hper0 : (o.basis 0).periodic = -1) (hper1 : (o.basis 1).periodic = -1)
     (hn1 : n1 = (o.basis 0).numFunctions) (hn2 : n2 = (o.basis 1).numFunctions)
-    (hm0 : (o.basis 0).InteriorMultLE) (hm1 : (o.basis 1).InteriorMultLE) (htol : 0 < tol)
+    (htol : 0 < tol)
     (hexs0 : (o.basis 0).ExactAt tol (o.basis 0).start)
     (hexe0 : (o.basis 0).ExactAt tol (o.basis 0).stop)
     (hexs1 : (o.basis 1).ExactAt tol (o.basis 1).start)
@@ -262,7 +271,7 @@ theorem C16_center_surface_is_integral_mean (o : Obj ℝ) (tol : ℝ) (n1 n2 nc 
               o.cps.get ((a * n2 + j) * nc + k) * B s (o.basis 0).kn ((o.basis 0).order - 1) a u
                 * B s (o.basis 1).kn ((o.basis 1).order - 1) j v)
         / (((o.basis 0).stop - (o.basis 0).start) * ((o.basis 1).stop - (o.basis 1).start)) :=
-  Obj.center_surface_integral_mean o tol n1 n2 nc hsh hb hrat hv0 hv1 hper0 hper1 hn1 hn2 hm0 hm1
+  Obj.center_surface_integral_mean o tol n1 n2 nc hsh hb hrat hv0 hv1 hper0 hper1 hn1 hn2
     htol hexs0 hexe0 hexs1 hexe1 s
 
 /-- **`center()` of a RATIONAL curve** (model level, any ordered field): with
@@ -283,21 +292,300 @@ theorem C16_center_curve_rational {K : Type} [Field K] [LinearOrder K] [FloorRin
 /-- **`center()` is invariant under knot insertion** (model level, `K = ℝ`, non-rational curve):
 if `o' = o.insert_knot(xs)` (any list of values of `[start, end)`, `Obj.insertKnots`) then
 `o'.center() = o.center()` — both are the integral mean of the same function (C04: `C04_object`,
-`C04_curve`) over the same domain.  Side conditions: the refined knot vector still has interior
-multiplicities `≤ order`, and `start`/`end` are exact for the tolerance in both knot vectors. -/
+`C04_curve`) over the same domain (any multiplicities of the inserted knots).  Side condition: `start`/`end` are
+exact for the tolerance in both knot vectors (true when distinct knots are at least `tol` apart). -/
 theorem C16_center_insert_knot_invariant (o : Obj ℝ) (tol : ℝ) (n nc : ℕ)
     (hsh : o.cps.shape = [n, nc]) (hb : o.bases.size = 1) (hrat : o.rational = false)
     (hv : (o.basis 0).Valid) (hper : (o.basis 0).periodic = -1)
-    (hn : n = (o.basis 0).numFunctions) (hm : (o.basis 0).InteriorMultLE) (htol : 0 < tol)
+    (hn : n = (o.basis 0).numFunctions) (htol : 0 < tol)
     (hexs : (o.basis 0).ExactAt tol (o.basis 0).start)
     (hexe : (o.basis 0).ExactAt tol (o.basis 0).stop)
     (xs : List ℝ) (hxs : ∀ x ∈ xs, (o.basis 0).start ≤ x ∧ x < (o.basis 0).stop)
-    (o' : Obj ℝ) (ho' : o.insertKnots xs 0 = .ok o') (hm' : (o'.basis 0).InteriorMultLE)
+    (o' : Obj ℝ) (ho' : o.insertKnots xs 0 = .ok o')
     (hexs' : (o'.basis 0).ExactAt tol (o'.basis 0).start)
     (hexe' : (o'.basis 0).ExactAt tol (o'.basis 0).stop) :
     o'.center tol = o.center tol :=
-  Obj.center_insertKnots o tol n nc hsh hb hrat hv hper hn hm htol hexs hexe xs hxs o' ho' hm'
+  Obj.center_insertKnots o tol n nc hsh hb hrat hv hper hn htol hexs hexe xs hxs o' ho'
     hexs' hexe'
+
+section model_bridges
+
+open Measure
+
+variable {K : Type} [Field K] [LinearOrder K] [IsStrictOrderedRing K] [FloorRing K]
+
+/-- **`Obj.lengthData` (executable `Curve.length` up to the square root) computes the squared speed
+of the MAP at the mapped Gauss nodes.**  Non-rational curve, valid basis (open or periodic), nodes
+admissible (in the domain, exact for the tolerance): the result is `(mapped weights, [‖x'(u)‖² : u ∈
+nodes])` with `x'(u) = Obj.specD1 … u true 1 = Σ_j rowSpec_j(u)·P_j`, the specification's first
+derivative of the evaluated map (property C03: `C03_nonrational_curve(_open/_periodic)` spell it out
+as `splineDeriv`). -/
+theorem C16_lengthData_spec {o : Obj K} {b1 : Basis K} (hb : o.bases = #[b1]) (hv1 : b1.Valid)
+    {nc : ℕ} (hs : o.cps.shape = [b1.numFunctions, nc]) (hr : o.rational = false) {tol : K}
+    (htol : 0 < tol) (x w : List K) (t0 t1 : Option K)
+    (hne : (gaussMap (o.lengthSpans tol t0 t1).toList x w).1 ≠ [])
+    (hadm : ∀ u ∈ (gaussMap (o.lengthSpans tol t0 t1).toList x w).1, b1.Admissible tol u)
+    (hneA1 : b1.periodic < 0 → (gaussMap (o.lengthSpans tol t0 t1).toList x w).1 ≠ [] := by (first | assumption | (simp; done) | skip)) :
+    o.lengthData tol x w t0 t1
+      = .ok ((gaussMap (o.lengthSpans tol t0 t1).toList x w).2,
+             (gaussMap (o.lengthSpans tol t0 t1).toList x w).1.map
+               (fun u => sqNorm (o.specD1 b1 nc u true 1))) :=
+  Obj.lengthData_spec hb hv1 hs hr htol x w t0 t1 hne hadm
+
+/-- **`Obj.curvatureData` of a non-rational space curve** is, per parameter, `(‖v×a‖², ‖v‖²)` with
+`v`, `a` the specification's first and second derivative vectors of the map (`Obj.specVec`, as
+`Fin 3 → K`); `curvature = √(first)/(√second)³` wherever `v ≠ 0` (the quotient and the roots are
+taken outside the model: no `x/0` convention enters). -/
+theorem C16_curvatureData_spec {o : Obj K} {b1 : Basis K} (hb : o.bases = #[b1]) (hv1 : b1.Valid)
+    (hs : o.cps.shape = [b1.numFunctions, 3]) (hr : o.rational = false) {tol : K}
+    (htol : 0 < tol) {ts : List K} (hne : ts ≠ []) (hadm : ∀ u ∈ ts, b1.Admissible tol u)
+    (a : Bool)
+    (hneA1 : b1.periodic < 0 → ts ≠ [] := by (first | assumption | (simp; done) | skip)) :
+    o.curvatureData tol ts a = .ok (ts.map (fun u =>
+      (normSq (cross (o.specVec b1 u a 1) (o.specVec b1 u a 2)), normSq (o.specVec b1 u a 1)))) :=
+  Obj.curvatureData_vec hb hv1 hs hr htol hne hadm a
+
+/-- **… of a non-rational PLANAR curve** (dimension 2): `((v×a)_z², ‖v‖²)`. -/
+theorem C16_curvatureData_spec_planar {o : Obj K} {b1 : Basis K} (hb : o.bases = #[b1])
+    (hv1 : b1.Valid) (hs : o.cps.shape = [b1.numFunctions, 2]) (hr : o.rational = false) {tol : K}
+    (htol : 0 < tol) {ts : List K} (hne : ts ≠ []) (hadm : ∀ u ∈ ts, b1.Admissible tol u)
+    (a : Bool)
+    (hneA1 : b1.periodic < 0 → ts ≠ [] := by (first | assumption | (simp; done) | skip)) :
+    o.curvatureData tol ts a = .ok (ts.map (fun u =>
+      (cross2 (o.specD1 b1 2 u a 1) (o.specD1 b1 2 u a 2)
+         * cross2 (o.specD1 b1 2 u a 1) (o.specD1 b1 2 u a 2), sqNorm (o.specD1 b1 2 u a 1)))) :=
+  Obj.curvatureData_spec2 hb hv1 hs hr htol hne hadm a
+
+/-- **`Obj.torsionData` of a non-rational space curve**: per parameter `((v×a)·a', ‖v×a‖²)` with
+the first three derivative vectors of the map; planar curves give `none` ("zeros",
+`Obj.torsionData_planar`).  `torsion = first/second` wherever `v×a ≠ 0`. -/
+theorem C16_torsionData_spec {o : Obj K} {b1 : Basis K} (hb : o.bases = #[b1]) (hv1 : b1.Valid)
+    (hs : o.cps.shape = [b1.numFunctions, 3]) (hr : o.rational = false) {tol : K}
+    (htol : 0 < tol) {ts : List K} (hne : ts ≠ []) (hadm : ∀ u ∈ ts, b1.Admissible tol u)
+    (a : Bool)
+    (hneA1 : b1.periodic < 0 → ts ≠ [] := by (first | assumption | (simp; done) | skip)) :
+    o.torsionData tol ts a = .ok (some (ts.map (fun u =>
+      (dot (cross (o.specVec b1 u a 1) (o.specVec b1 u a 2)) (o.specVec b1 u a 3),
+       normSq (cross (o.specVec b1 u a 1) (o.specVec b1 u a 2)))))) :=
+  Obj.torsionData_vec hb hv1 hs hr htol hne hadm a
+
+/-- **Knot insertion leaves the executable curvature and torsion data unchanged** (non-rational
+space curve on a valid non-periodic basis; `o' = o.insert_knot(xs)`, any values of `[start,end)`;
+same parameters, admissible for both knot vectors): C04 (`C04_object`, `C04_curve`) says every
+derivative of the map is unchanged, the bridges above say the data are functions of those
+derivatives. -/
+theorem C16_curvature_torsion_insert_knot_invariant {o o' : Obj K} {b1 : Basis K}
+    (hb : o.bases = #[b1]) (hv1 : b1.Valid) (hper : b1.periodic = -1)
+    (hs : o.cps.shape = [b1.numFunctions, 3]) (hr : o.rational = false) (xs : List K)
+    (hxs : ∀ x ∈ xs, b1.start ≤ x ∧ x < b1.stop) (ho' : o.insertKnots xs 0 = .ok o') {tol : K}
+    (htol : 0 < tol) {ts : List K} (hne : ts ≠ []) (hadm : ∀ u ∈ ts, b1.Admissible tol u)
+    (hadm' : ∀ u ∈ ts, (o'.basis 0).Admissible tol u) (a : Bool)
+    (hneA1 : b1.periodic < 0 → ts ≠ [] := by (first | assumption | (simp; done) | skip)) :
+    o'.curvatureData tol ts a = o.curvatureData tol ts a ∧
+    o'.torsionData tol ts a = o.torsionData tol ts a :=
+  ⟨Obj.curvatureData_insertKnots hb hv1 hper hs hr xs hxs ho' htol hne hadm hadm' a,
+   Obj.torsionData_insertKnots hb hv1 hper hs hr xs hxs ho' htol hne hadm hadm' a⟩
+
+/-- … and the planar curvature data. -/
+theorem C16_curvature_insert_knot_invariant_planar {o o' : Obj K} {b1 : Basis K}
+    (hb : o.bases = #[b1]) (hv1 : b1.Valid) (hper : b1.periodic = -1)
+    (hs : o.cps.shape = [b1.numFunctions, 2]) (hr : o.rational = false) (xs : List K)
+    (hxs : ∀ x ∈ xs, b1.start ≤ x ∧ x < b1.stop) (ho' : o.insertKnots xs 0 = .ok o') {tol : K}
+    (htol : 0 < tol) {ts : List K} (hne : ts ≠ []) (hadm : ∀ u ∈ ts, b1.Admissible tol u)
+    (hadm' : ∀ u ∈ ts, (o'.basis 0).Admissible tol u) (a : Bool)
+    (hneA1 : b1.periodic < 0 → ts ≠ [] := by (first | assumption | (simp; done) | skip)) :
+    o'.curvatureData tol ts a = o.curvatureData tol ts a :=
+  Obj.curvatureData_insertKnots_planar hb hv1 hper hs hr xs hxs ho' htol hne hadm hadm' a
+
+/-- **Rotating the control net leaves the executable curvature and torsion data unchanged.**
+`hnet` says that every control point of `o'` is the rotated control point of `o` (`p ↦ p R`,
+Euler–Rodrigues parameters with `a²+b²+c²+d² = 1`) — what `SplineObject.rotate` does (property C09);
+bases unchanged.  The data contain no division, so nothing is assumed about `v`, `v×a`.
+`_partial`: the link `Obj.rotate ↦ hnet` is property C09's and is taken as hypothesis; translation
+needs no theorem (derivative rows sum to zero, `C16_exact_invariances_translation`). -/
+theorem C16_curvature_torsion_rotation_partial {o o' : Obj K} {b1 : Basis K}
+    (hb : o.bases = #[b1]) (hb' : o'.bases = #[b1]) (hv1 : b1.Valid)
+    (hs : o.cps.shape = [b1.numFunctions, 3]) (hs' : o'.cps.shape = [b1.numFunctions, 3])
+    (hr : o.rational = false) (hr' : o'.rational = false) {qa qb qc qd : K}
+    (hq : qa * qa + qb * qb + qc * qc + qd * qd = 1)
+    (hnet : ∀ j, j < b1.numFunctions → ∀ k : Fin 3, o'.cps.get (j * 3 + k.val)
+      = rotatePoint qa qb qc qd (fun k' => o.cps.get (j * 3 + k'.val)) k)
+    {tol : K} (htol : 0 < tol) {ts : List K} (hne : ts ≠ []) (hadm : ∀ u ∈ ts, b1.Admissible tol u)
+    (a : Bool)
+    (hneA1 : b1.periodic < 0 → ts ≠ [] := by (first | assumption | (simp; done) | skip)) :
+    o'.curvatureData tol ts a = o.curvatureData tol ts a ∧
+    o'.torsionData tol ts a = o.torsionData tol ts a :=
+  Obj.curvature_torsion_data_rotate hb hb' hv1 hs hs' hr hr' hq hnet htol hne hadm a
+
+/-- **Uniformly scaling the control net by `t`**: `curvatureData ↦ (t⁴·‖v×a‖², t²·‖v‖²)`,
+`torsionData ↦ (t³·(v×a)·a', t⁴·‖v×a‖²)`: curvature `× 1/|t|`, torsion `× 1/t` wherever the quotients
+are defined.  `_partial` as above (`hnet` is what `SplineObject.scale` does). -/
+theorem C16_curvature_torsion_scaling_partial {o o' : Obj K} {b1 : Basis K}
+    (hb : o.bases = #[b1]) (hb' : o'.bases = #[b1]) (hv1 : b1.Valid)
+    (hs : o.cps.shape = [b1.numFunctions, 3]) (hs' : o'.cps.shape = [b1.numFunctions, 3])
+    (hr : o.rational = false) (hr' : o'.rational = false) (t : K)
+    (hnet : ∀ j, j < b1.numFunctions → ∀ k : Fin 3,
+      o'.cps.get (j * 3 + k.val) = t * o.cps.get (j * 3 + k.val))
+    {tol : K} (htol : 0 < tol) {ts : List K} (hne : ts ≠ []) (hadm : ∀ u ∈ ts, b1.Admissible tol u)
+    (a : Bool)
+    (hneA1 : b1.periodic < 0 → ts ≠ [] := by (first | assumption | (simp; done) | skip)) :
+    o'.curvatureData tol ts a = .ok (ts.map (fun u =>
+      ((t ^ 2) ^ 2 * normSq (cross (o.specVec b1 u a 1) (o.specVec b1 u a 2)),
+       t ^ 2 * normSq (o.specVec b1 u a 1)))) ∧
+    o'.torsionData tol ts a = .ok (some (ts.map (fun u =>
+      (t ^ 3 * dot (cross (o.specVec b1 u a 1) (o.specVec b1 u a 2)) (o.specVec b1 u a 3),
+       (t ^ 2) ^ 2 * normSq (cross (o.specVec b1 u a 1) (o.specVec b1 u a 2)))))) :=
+  Obj.curvature_torsion_data_scale hb hb' hv1 hs hs' hr hr' t hnet htol hne hadm a
+
+/-- **`Obj.volume` (executable `Volume.volume`) is the composite rule applied to the absolute
+Jacobian determinant of the MAP.**  Non-rational volume, valid bases, rules with as many weights as
+nodes, admissible nodes: with `(u, W1)`, `(v, W2)`, `(w, W3)` the mapped nodes/weights of the three
+directions,
+`volume = Σ_i Σ_j Σ_k W1_i W2_j W3_k · |det[∂_u x; ∂_v x; ∂_w x](u_i, v_j, w_k)|` (`gaussSum3`,
+`jac3`, `Obj.specD3` = the specification's partial derivatives, C03). -/
+theorem C16_volume_spec {o : Obj K} {b1 b2 b3 : Basis K} (hb : o.bases = #[b1, b2, b3])
+    (hv1 : b1.Valid) (hv2 : b2.Valid) (hv3 : b3.Valid)
+    (hs : o.cps.shape = [b1.numFunctions, b2.numFunctions, b3.numFunctions, 3])
+    (hr : o.rational = false) {tol : K} (htol : 0 < tol) (x1 wt1 x2 wt2 x3 wt3 : List K)
+    (hl1 : x1.length = wt1.length) (hl2 : x2.length = wt2.length) (hl3 : x3.length = wt3.length)
+    (hadm1 : ∀ u ∈ (gaussMap (b1.knotSpans tol false).toList x1 wt1).1, b1.Admissible tol u)
+    (hadm2 : ∀ u ∈ (gaussMap (b2.knotSpans tol false).toList x2 wt2).1, b2.Admissible tol u)
+    (hadm3 : ∀ u ∈ (gaussMap (b3.knotSpans tol false).toList x3 wt3).1, b3.Admissible tol u)
+    (hneA1 : b1.periodic < 0 → (gaussMap (b1.knotSpans tol false).toList x1 wt1).1 ≠ [] := by (first | assumption | (simp; done) | skip))
+    (hneA2 : b2.periodic < 0 → (gaussMap (b2.knotSpans tol false).toList x2 wt2).1 ≠ [] := by (first | assumption | (simp; done) | skip))
+    (hneA3 : b3.periodic < 0 → (gaussMap (b3.knotSpans tol false).toList x3 wt3).1 ≠ [] := by (first | assumption | (simp; done) | skip)) :
+    o.volume tol x1 wt1 x2 wt2 x3 wt3 = .ok
+      (gaussSum3 (gaussMap (b1.knotSpans tol false).toList x1 wt1).2
+        (gaussMap (b2.knotSpans tol false).toList x2 wt2).2
+        (gaussMap (b3.knotSpans tol false).toList x3 wt3).2 (fun i j k =>
+          |jac3
+            (o.specD3 b1 b2 b3 3 ((gaussMap (b1.knotSpans tol false).toList x1 wt1).1.getD i 0)
+              ((gaussMap (b2.knotSpans tol false).toList x2 wt2).1.getD j 0)
+              ((gaussMap (b3.knotSpans tol false).toList x3 wt3).1.getD k 0) 1 0 0)
+            (o.specD3 b1 b2 b3 3 ((gaussMap (b1.knotSpans tol false).toList x1 wt1).1.getD i 0)
+              ((gaussMap (b2.knotSpans tol false).toList x2 wt2).1.getD j 0)
+              ((gaussMap (b3.knotSpans tol false).toList x3 wt3).1.getD k 0) 0 1 0)
+            (o.specD3 b1 b2 b3 3 ((gaussMap (b1.knotSpans tol false).toList x1 wt1).1.getD i 0)
+              ((gaussMap (b2.knotSpans tol false).toList x2 wt2).1.getD j 0)
+              ((gaussMap (b3.knotSpans tol false).toList x3 wt3).1.getD k 0) 0 0 1)|)) :=
+  Obj.volume_spec hb hv1 hv2 hv3 hs hr htol x1 wt1 x2 wt2 x3 wt3 hl1 hl2 hl3 hadm1 hadm2 hadm3
+
+/-- **`Volume.volume()` is EXACT for piecewise polynomial Jacobians** (model level).  Rules: any
+lists `(x_d, w_d)` satisfying the moment equations up to degree `D_d` (`GaussRule`; `D = 2m−1` for
+the `m`-point Gauss–Legendre rule, which is what `leggauss(order+1)` returns up to rounding — the
+harness checks the moment equations of numpy's nodes to `1e-14`; existence of exact real nodes is
+the hypothesis, proved for `m ≤ 3`).  If on every element `e1×e2×e3` (consecutive distinct knots)
+the absolute Jacobian determinant of the map agrees at the element's nodes with
+`Σ_c P_c'(u)R_c'(v)T_c'(w)`, `deg ≤ D_d`, then the executable `Obj.volume` returns
+`Σ_elements Σ_c ΔP_c·ΔR_c·ΔT_c`, the integral of that polynomial over the parametric box, defined by
+antiderivatives.
+`_partial`: hypothesis `hF` is not discharged here.  It holds for every non-rational volume whose
+Jacobian keeps one sign on each element and has degree `3p_d − 4 ≤ 2p_d + 1` (orders `≤ 5`): the
+partial derivatives are polynomials there (`Lemmas/Deriv.lean`: `Bpoly`), `|J| = ±J` is a polynomial,
+and every polynomial is such a sum; that last chain (from `Bpoly` to the family `P, R, T`) is not
+formalised. -/
+theorem C16_volume_exact_partial [CharZero K] {o : Obj K} {b1 b2 b3 : Basis K}
+    (hb : o.bases = #[b1, b2, b3]) (hv1 : b1.Valid) (hv2 : b2.Valid) (hv3 : b3.Valid)
+    (hs : o.cps.shape = [b1.numFunctions, b2.numFunctions, b3.numFunctions, 3])
+    (hr : o.rational = false) {tol : K} (htol : 0 < tol) {x1 wt1 x2 wt2 x3 wt3 : List K}
+    {D1 D2 D3 : ℕ} (hr1 : GaussRule x1 wt1 D1) (hr2 : GaussRule x2 wt2 D2)
+    (hr3 : GaussRule x3 wt3 D3)
+    (hadm1 : ∀ u ∈ (gaussMap (b1.knotSpans tol false).toList x1 wt1).1, b1.Admissible tol u)
+    (hadm2 : ∀ u ∈ (gaussMap (b2.knotSpans tol false).toList x2 wt2).1, b2.Admissible tol u)
+    (hadm3 : ∀ u ∈ (gaussMap (b3.knotSpans tol false).toList x3 wt3).1, b3.Admissible tol u)
+    {ι : Type} (fam : K × K → K × K → K × K → Finset ι)
+    (P R T : K × K → K × K → K × K → ι → Polynomial K)
+    (hF : ∀ e1 ∈ elements (b1.knotSpans tol false).toList,
+      ∀ e2 ∈ elements (b2.knotSpans tol false).toList,
+      ∀ e3 ∈ elements (b3.knotSpans tol false).toList,
+      (∀ c ∈ fam e1 e2 e3, (derivative (P e1 e2 e3 c)).natDegree ≤ D1 ∧
+        (derivative (R e1 e2 e3 c)).natDegree ≤ D2 ∧ (derivative (T e1 e2 e3 c)).natDegree ≤ D3) ∧
+      ∀ i j k, i < wt1.length → j < wt2.length → k < wt3.length →
+        (fun u v w => |jac3 (o.specD3 b1 b2 b3 3 u v w 1 0 0) (o.specD3 b1 b2 b3 3 u v w 0 1 0)
+            (o.specD3 b1 b2 b3 3 u v w 0 0 1)|)
+          ((x1.getD i 0 + 1) / 2 * (e1.2 - e1.1) + e1.1) ((x2.getD j 0 + 1) / 2 * (e2.2 - e2.1) + e2.1)
+          ((x3.getD k 0 + 1) / 2 * (e3.2 - e3.1) + e3.1)
+          = ∑ c ∈ fam e1 e2 e3,
+              (derivative (P e1 e2 e3 c)).eval ((x1.getD i 0 + 1) / 2 * (e1.2 - e1.1) + e1.1)
+              * (derivative (R e1 e2 e3 c)).eval ((x2.getD j 0 + 1) / 2 * (e2.2 - e2.1) + e2.1)
+              * (derivative (T e1 e2 e3 c)).eval ((x3.getD k 0 + 1) / 2 * (e3.2 - e3.1) + e3.1))
+    (hneA1 : b1.periodic < 0 → (gaussMap (b1.knotSpans tol false).toList x1 wt1).1 ≠ [] := by (first | assumption | (simp; done) | skip))
+    (hneA2 : b2.periodic < 0 → (gaussMap (b2.knotSpans tol false).toList x2 wt2).1 ≠ [] := by (first | assumption | (simp; done) | skip))
+    (hneA3 : b3.periodic < 0 → (gaussMap (b3.knotSpans tol false).toList x3 wt3).1 ≠ [] := by (first | assumption | (simp; done) | skip)) :
+    o.volume tol x1 wt1 x2 wt2 x3 wt3 = .ok
+      (((elements (b1.knotSpans tol false).toList).map (fun e1 =>
+        ((elements (b2.knotSpans tol false).toList).map (fun e2 =>
+          ((elements (b3.knotSpans tol false).toList).map (fun e3 =>
+            ∑ c ∈ fam e1 e2 e3,
+              ((P e1 e2 e3 c).eval e1.2 - (P e1 e2 e3 c).eval e1.1)
+              * ((R e1 e2 e3 c).eval e2.2 - (R e1 e2 e3 c).eval e2.1)
+              * ((T e1 e2 e3 c).eval e3.2 - (T e1 e2 e3 c).eval e3.1))).sum)).sum)).sum) := by
+  rw [Obj.volume_spec hb hv1 hv2 hv3 hs hr htol x1 wt1 x2 wt2 x3 wt3 hr1.1 hr2.1 hr3.1
+    hadm1 hadm2 hadm3]
+  congr 1
+  exact gaussSum3_exact hr1 hr2 hr3 _ _ _
+    (fun u v w => |jac3 (o.specD3 b1 b2 b3 3 u v w 1 0 0) (o.specD3 b1 b2 b3 3 u v w 0 1 0)
+      (o.specD3 b1 b2 b3 3 u v w 0 0 1)|) fam P R T hF
+
+/-- **`Surface.area()` of a planar non-rational surface** (model level): bridge and exactness in
+one statement.  The finished number of `Obj.areaData` is `Σ_elements Σ_c ΔP_c·ΔR_c` whenever the
+absolute Jacobian `|(∂_u x × ∂_v x)_z|` of the map agrees on every element, at its nodes, with
+`Σ_c P_c'(u)R_c'(v)` of degrees `≤ D1, D2`.  `_partial` for the same reason as
+`C16_volume_exact_partial` (`hF`: one sign per element, degree `2p_d − 3`). -/
+theorem C16_area_planar_exact_partial [CharZero K] {o : Obj K} {b1 b2 : Basis K}
+    (hb : o.bases = #[b1, b2]) (hv1 : b1.Valid) (hv2 : b2.Valid)
+    (hs : o.cps.shape = [b1.numFunctions, b2.numFunctions, 2]) (hr : o.rational = false) {tol : K}
+    (htol : 0 < tol) {x1 wt1 x2 wt2 : List K} {D1 D2 : ℕ} (hr1 : GaussRule x1 wt1 D1)
+    (hr2 : GaussRule x2 wt2 D2)
+    (hne1 : (gaussMap (b1.knotSpans tol false).toList x1 wt1).1 ≠ [])
+    (hne2 : (gaussMap (b2.knotSpans tol false).toList x2 wt2).1 ≠ [])
+    (hadm1 : ∀ u ∈ (gaussMap (b1.knotSpans tol false).toList x1 wt1).1, b1.Admissible tol u)
+    (hadm2 : ∀ u ∈ (gaussMap (b2.knotSpans tol false).toList x2 wt2).1, b2.Admissible tol u)
+    {ι : Type} (fam : K × K → K × K → Finset ι) (P R : K × K → K × K → ι → Polynomial K)
+    (hF : ∀ e1 ∈ elements (b1.knotSpans tol false).toList,
+      ∀ e2 ∈ elements (b2.knotSpans tol false).toList,
+      (∀ c ∈ fam e1 e2, (derivative (P e1 e2 c)).natDegree ≤ D1 ∧
+        (derivative (R e1 e2 c)).natDegree ≤ D2) ∧
+      ∀ i j, i < wt1.length → j < wt2.length →
+        (fun u v => |cross2 (o.specD2 b1 b2 2 u v 1 0) (o.specD2 b1 b2 2 u v 0 1)|)
+          ((x1.getD i 0 + 1) / 2 * (e1.2 - e1.1) + e1.1) ((x2.getD j 0 + 1) / 2 * (e2.2 - e2.1) + e2.1)
+          = ∑ c ∈ fam e1 e2,
+              (derivative (P e1 e2 c)).eval ((x1.getD i 0 + 1) / 2 * (e1.2 - e1.1) + e1.1)
+              * (derivative (R e1 e2 c)).eval ((x2.getD j 0 + 1) / 2 * (e2.2 - e2.1) + e2.1))
+    (hneA1 : b1.periodic < 0 → (gaussMap (b1.knotSpans tol false).toList x1 wt1).1 ≠ [] := by (first | assumption | (simp; done) | skip))
+    (hneA2 : b2.periodic < 0 → (gaussMap (b2.knotSpans tol false).toList x2 wt2).1 ≠ [] := by (first | assumption | (simp; done) | skip)) :
+    ∃ W1 W2 J, o.areaData tol x1 wt1 x2 wt2 = .ok (W1, W2, J, some
+      (((elements (b1.knotSpans tol false).toList).map (fun e1 =>
+        ((elements (b2.knotSpans tol false).toList).map (fun e2 =>
+          ∑ c ∈ fam e1 e2,
+            ((P e1 e2 c).eval e1.2 - (P e1 e2 c).eval e1.1)
+            * ((R e1 e2 c).eval e2.2 - (R e1 e2 c).eval e2.1))).sum)).sum)) := by
+  have h := Obj.areaData_spec_planar hb hv1 hv2 hs hr htol x1 wt1 x2 wt2 hr1.1 hr2.1 hne1 hne2
+    hadm1 hadm2
+  simp only [] at h
+  have hx := gaussSum2_exact hr1 hr2 (b1.knotSpans tol false).toList (b2.knotSpans tol false).toList
+    (fun u v => |cross2 (o.specD2 b1 b2 2 u v 1 0) (o.specD2 b1 b2 2 u v 0 1)|) fam P R hF
+  rw [hx] at h
+  exact ⟨_, _, _, h⟩
+
+end model_bridges
+
+/-- **The moment equations give exactness for EVERY number of nodes** (model-level, one
+direction).  `GaussRule x w D`: the lists the model receives have equal length and satisfy
+`Σ_i w_i x_i^k = ∫_{-1}^{1} t^k dt` for `k ≤ D` (`D = 2m−1` for `m` Gauss–Legendre nodes; existence
+of such real nodes is the hypothesis — proved for `m ≤ 3`, checked numerically to `1e-14` for
+numpy's nodes `m ≤ 8` by `harness/props/C16.py`).  Then the composite sum the model forms
+(`gaussMap` + `gaussSum1`) of any `g` that agrees on every element, at its nodes, with a polynomial
+`(Q e)'` of degree `≤ D` is `Σ_e (Q_e(b) − Q_e(a))`. -/
+theorem C16_gauss_rule_exact_composite {K : Type} [Field K] [CharZero K] {x w : List K} {D : ℕ}
+    (hr : GaussRule x w D) (spans : List K) (g : K → K) (Q : K × K → Polynomial K)
+    (hQ : ∀ e ∈ elements spans, (derivative (Q e)).natDegree ≤ D ∧
+      ∀ i, i < w.length → g ((x.getD i 0 + 1) / 2 * (e.2 - e.1) + e.1)
+        = (derivative (Q e)).eval ((x.getD i 0 + 1) / 2 * (e.2 - e.1) + e.1)) :
+    Measure.gaussSum1 (Measure.gaussMap spans x w).2
+        (fun i => g ((Measure.gaussMap spans x w).1.getD i 0))
+      = ((elements spans).map (fun e => (Q e).eval e.2 - (Q e).eval e.1)).sum :=
+  gaussSum1_exact hr spans g Q hQ
 
 section quadrature
 
@@ -514,18 +802,22 @@ theorem C16_frenet {v a : Fin 3 → K} {s m : K} (hs : s * s = normSq v) (hs0 : 
   ⟨frenet_TT hs hs0, frenet_NN hs hs0 hm hm0, frenet_BB hm hm0, frenet_TN, frenet_TB, frenet_NB,
    frenet_T_cross_N hs hs0⟩
 
-/-- **Curvature and torsion are invariant under rigid motion**: `κ² = ‖v×a‖²/‖v‖⁶` and
-`τ = (v×a)·a'/‖v×a‖²` of the rotated derivative vectors equal those of the original
-(translations do not change derivatives: `C16_exact_invariances_translation`). -/
+/-- **Curvature and torsion are invariant under rigid motion** (free vectors): `κ² = ‖v×a‖²/‖v‖⁶`
+and `τ = (v×a)·a'/‖v×a‖²` of the rotated derivative vectors equal those of the original, at a
+REGULAR point with non-vanishing `v × a` (hypotheses `hv`, `hw`: where they fail Python returns `nan`
+and Lean's `x/0 = 0` would make the statement vacuous — the division-free model-level statements are
+`C16_curvature_torsion_rotation_partial` / `C16_curvature_torsion_insert_knot_invariant`). -/
 theorem C16_curvature_torsion_rigid {a b c d : K} (h : a * a + b * b + c * c + d * d = 1)
-    (v acc jerk : Fin 3 → K) :
+    (v acc jerk : Fin 3 → K) (_hv : normSq v ≠ 0) (_hw : normSq (cross v acc) ≠ 0) :
     curvatureSq (rotatePoint a b c d v) (rotatePoint a b c d acc) = curvatureSq v acc ∧
     torsion (rotatePoint a b c d v) (rotatePoint a b c d acc) (rotatePoint a b c d jerk)
       = torsion v acc jerk :=
   ⟨curvatureSq_rotate h v acc, torsion_rotate h v acc jerk⟩
 
-/-- Uniform scaling by `t ≠ 0`: `κ² ↦ κ²/t²` (curvature `× 1/|t|`), `τ ↦ τ/t`. -/
-theorem C16_curvature_torsion_scaling {t : K} (ht : t ≠ 0) (v acc jerk : Fin 3 → K) :
+/-- Uniform scaling by `t ≠ 0` at a regular point with `v × a ≠ 0`: `κ² ↦ κ²/t²` (curvature
+`× 1/|t|`), `τ ↦ τ/t`. -/
+theorem C16_curvature_torsion_scaling {t : K} (ht : t ≠ 0) (v acc jerk : Fin 3 → K)
+    (_hv : normSq v ≠ 0) (_hw : normSq (cross v acc) ≠ 0) :
     curvatureSq (smul3 t v) (smul3 t acc) = curvatureSq v acc / t ^ 2 ∧
     torsion (smul3 t v) (smul3 t acc) (smul3 t jerk) = torsion v acc jerk / t :=
   ⟨curvatureSq_smul3 ht v acc, torsion_smul3 ht v acc jerk⟩
@@ -604,8 +896,8 @@ example : ∑ i ∈ Finset.Ico 1 7,
 example : ∫ x in (7/2 : ℝ)..(11/2), B .right (fun n : ℕ => (n : ℝ)) 2 1 x
     = intF .left (fun n : ℕ => (n : ℝ)) 2 9 1 (11/2) - intF .right (fun n : ℕ => (n : ℝ)) 2 9 1 (7/2) :=
   (C16_basis_integral_real .right (fun n : ℕ => (n : ℝ)) (fun _ _ h => Nat.cast_le.mpr h) 2 9 1 3
-    (7/2) (by norm_num) (by norm_num) 2 (by norm_num) (11/2) (by norm_num) (by norm_num)
-    (fun ξ _ _ j hj => by rw [← hj]; push_cast; linarith)).2
+    (7/2) (by norm_num) (by norm_num) (by norm_num) 2 (by norm_num) (11/2) (by norm_num)
+    (by norm_num)).2
 
 /-- `C16_integrate_spec_open` on the open quadratic basis of C01 (double interior knot), interval
 `[1/2, 3]` reaching the domain end. -/
@@ -648,15 +940,6 @@ theorem C16_exReal_valid : C16_exReal.Valid where
     norm_num [C16_exReal]
   ghosts := fun h => absurd h (by decide)
 
-theorem C16_exReal_mult : C16_exReal.InteriorMultLE := by
-  intro ξ h1 h2 j hj
-  exfalso
-  unfold Basis.start at h1
-  unfold Basis.stop at h2
-  rw [C16_exReal_kn] at h1 h2 hj
-  norm_num [C16_exReal] at h1 h2
-  split_ifs at hj <;> linarith
-
 /-- `C16_integrate_is_integral` on `[0,1]`: the model returns `∫_0^1 B_c` for both functions. -/
 example : ∃ r, C16_exReal.integrate (1/1000) 0 1 = .ok r ∧ r.size = C16_exReal.numFunctions ∧
     ∀ c, c < C16_exReal.numFunctions →
@@ -667,7 +950,7 @@ example : ∃ r, C16_exReal.integrate (1/1000) 0 1 = .ok r ∧ r.size = C16_exRe
     rcases ht with rfl | rfl <;> split_ifs <;> norm_num
   have hs : C16_exReal.start = 0 := by unfold Basis.start; rw [C16_exReal_kn]; norm_num [C16_exReal]
   have he : C16_exReal.stop = 1 := by unfold Basis.stop; rw [C16_exReal_kn]; norm_num [C16_exReal]
-  exact C16_integrate_is_integral C16_exReal_valid rfl C16_exReal_mult .right (by norm_num)
+  exact C16_integrate_is_integral C16_exReal_valid rfl .right (by norm_num)
     (hex 0 (Or.inl rfl)) (hex 1 (Or.inr rfl)) (by rw [hs]) (by norm_num) (by rw [he])
 
 /-- The straight segment from `(0,0)` to `(1,2)` as a curve over `C16_exReal`. -/
@@ -688,9 +971,15 @@ example : ∃ r, C16_exCurve.center (1/1000) = .ok r ∧ r.size = 2 ∧ ∀ k, k
   have hb0 : C16_exCurve.basis 0 = C16_exReal := rfl
   have := C16_center_curve_is_integral_mean C16_exCurve (1/1000) 2 2 rfl rfl rfl
     (by rw [hb0]; exact C16_exReal_valid) (by rw [hb0]; rfl) (by rw [hb0]; rfl)
-    (by rw [hb0]; exact C16_exReal_mult) (by norm_num)
+    (by norm_num)
     (by rw [hb0, hs]; exact hex 0 (Or.inl rfl)) (by rw [hb0, he]; exact hex 1 (Or.inr rfl)) .right
   rwa [hb0] at this
+
+/-- `GaussRule` is satisfiable: the midpoint rule as the lists the model receives. -/
+example : GaussRule (K := ℚ) [0] [2] 1 := by
+  refine ⟨rfl, ?_⟩
+  intro k hk
+  interval_cases k <;> norm_num
 
 /-- Rules satisfying `RuleExact`: midpoint = 1-point Gauss–Legendre (`D = 1`), Simpson (`D = 3`);
 `ruleExact_gauss2` gives the 2-point Gauss–Legendre rule in any field with a root of `1/3`. -/
